@@ -368,6 +368,10 @@ def log_problems(sim, patterns=("uncaptured python exception", "Unexpected excep
                                 "Unexpected error")):
     out = []
     for seq, level, msg, exc, th in sim.logcap.records:
+        if "Unexpected exception when flushing" in msg and "'NoneType' object has no attribute 'send'" in exc:
+            # a producer-side flush found the socket already closed by the
+            # I/O thread: contained by _flush_exception, not an escape
+            continue
         for p in patterns:
             if p in msg:
                 out.append((seq, msg[:300], exc[-600:]))
